@@ -67,14 +67,16 @@ ConcLens == Lens \cap {"C04", "C16"} # {}
 TraceSet ==
   /\ IsEvent("set")
   /\ LET e == Trace[l] IN
-     /\ ConcLens => (e.b \notin out /\ e.b \in Blocks /\ e.held)
+     /\ ConcLens => (e.b \notin out /\ e.b \in Blocks)
+     /\ ("DISC" \in Lens) => e.held                  \* lock discipline of the present design (drift detector only)
      /\ out' = out \cup {e.b}
      /\ pend' = [g \in DOMAIN pend \cup {e.g} |-> IF g = e.g THEN e.b ELSE pend[g]]
   /\ UNCHANGED <<kind, N, page>>
 TraceClear ==
   /\ IsEvent("clear")
   /\ LET e == Trace[l] IN
-     /\ ConcLens => (e.b \in out /\ e.held)
+     /\ ConcLens => e.b \in out
+     /\ ("DISC" \in Lens) => e.held
      /\ out' = out \ {e.b}
   /\ UNCHANGED <<kind, N, page, pend>>
 TraceRet ==
